@@ -30,6 +30,23 @@ class Kernel:
         self.table = {}  # path -> {proc: 'sh'|'ex'}
         self.fds = {}  # (proc, fd) -> path
         self.next_fd = {}
+        self.opened_as = {}  # (proc, fd) -> the name given to open()
+
+    @staticmethod
+    def resolve(path):
+        """Name resolution of the simulated file system (no symbolic links; every directory named exists):
+        the file a path designates is found by walking its components, so `d/f`, `d//f`, `d/./f` and
+        `d/sub/../f` are one file.  Record locks belong to (process, FILE), whatever name it was opened by."""
+        stack = []
+        for c in path.split("/"):
+            if c in ("", "."):
+                continue
+            if c == "..":
+                if stack:
+                    stack.pop()
+                continue
+            stack.append(c)
+        return "/" + "/".join(stack)
 
     def grantable(self, proc, path, mode):
         held = self.table.get(path, {})
@@ -56,6 +73,7 @@ class VThread:
         self.in_body = []  # stack of requests whose body the thread is in
         self.inflight = None
         self.events = []
+        self.cur_path = None  # the path string of the request being entered / left (as spelled by the caller)
         self.thread = None
 
 
@@ -209,12 +227,14 @@ class Runtime:
             rt.point(rt.cur(), ("sys", "open", path), lambda: True)
             n = kernel.next_fd.get(proc, 3)
             kernel.next_fd[proc] = n + 1
-            kernel.fds[(proc, n)] = path
+            kernel.fds[(proc, n)] = kernel.resolve(path)
+            kernel.opened_as[(proc, n)] = path
             return n
 
         def vclose(fd):
             rt.point(rt.cur(), ("sys", "close", fd), lambda: True)
             path = kernel.fds.pop((proc, fd))
+            kernel.opened_as.pop((proc, fd), None)
             # POSIX: closing any descriptor of the file drops every lock the process holds on it
             kernel.table.get(path, {}).pop(proc, None)
 
@@ -268,11 +288,11 @@ class Runtime:
             try:
                 with orig_call(self, key) as obj:
                     entered = True
-                    rt.cur().events.append(("pool-enter", name, key, obj))
+                    rt.cur().events.append(("pool-enter", name, key, obj, rt.cur().cur_path))
                     yield obj
             finally:
                 if entered:
-                    rt.cur().events.append(("pool-exit", name, key, None))
+                    rt.cur().events.append(("pool-exit", name, key, None, rt.cur().cur_path))
 
         pool_cls.__call__ = observed_call
         return ns
